@@ -294,6 +294,18 @@ def run(F, R):
             pass
     R.floor("R03.8", "sites consuming an error result without reporting it (matcher alive)", n8, 1)
 
+    # ------------------------------------------------------------ R03.9
+    R.rule("R03.9", "a null placed as an error boundary stays null: insert_value (the merge of repeated response keys) never replaces a value that is already "
+                    "stored under the key — it only merges objects / lists in place; no wholesale store through the existing entry (`*prev = value`)")
+    from common import whole_value_stores
+    ivb = F.one(r"async_graphql::resolver_utils::container::insert_value$", kind="fn")
+    st9 = []
+    for x in F.with_nested(ivb):
+        st9 += whole_value_stores(x, r"async_graphql_value::ConstValue")
+    R.check(not st9, "R03.9", "insert_value:existing-value-never-replaced", ivb.where(), "no store through the existing entry",
+            "insert_value overwrites the value already stored under a response key (%s): the null that an error placed at the nearest nullable position is replaced by a later "
+            "occurrence of the same key" % [w for w, how in st9][:2])
+
     # ------------------------------------------------------------ R03.5
     R.rule("R03.5", "guards run before the resolver: in every Object/ComplexObject/SimpleObject/Subscription expansion that "
                     "calls Guard::check, the check dominates the user method call / field read and its Err is propagated")
